@@ -96,8 +96,8 @@ UpdSig(u, item, names, values) ==
          THEN { <<"rhs-reads-a-target">> } ELSE {})
   \cup (LET res == ApplyU(u, item, names, values, {"pk"}) IN
         IF ItemHasEmpty(item) \/ (res.ok /\ ItemHasEmpty(res.item)) THEN { <<"empty-container">> } ELSE {})
-ReservedNested(ts) == \E p \in DOMAIN ts : p > 1 /\ ts[p].t = "NAME" /\ TokAt(ts, p + 1) # "(" /\ UpperSeq(ts[p].s) \in ReservedWords /\ ts[p - 1].t = "."
-ReservedTop(ts) == \E p \in DOMAIN ts : ts[p].t = "NAME" /\ TokAt(ts, p + 1) # "(" /\ UpperSeq(ts[p].s) \in ReservedWords /\ (p = 1 \/ ts[p - 1].t # ".")
+ReservedNested(ts) == \E p \in DOMAIN ts : p > 1 /\ ts[p].t = "NAME" /\ TokAt(ts, p + 1) # "(" /\ IsReserved(ts[p].s) /\ ts[p - 1].t = "."
+ReservedTop(ts) == \E p \in DOMAIN ts : ts[p].t = "NAME" /\ TokAt(ts, p + 1) # "(" /\ IsReserved(ts[p].s) /\ (p = 1 \/ ts[p - 1].t # ".")
 TextMarks(e) == LET ts == Lex(e.text) IN
                 (IF ReservedNested(ts) /\ ~ReservedTop(ts) THEN { <<"reserved", "nested-only">> } ELSE {})
                 \cup (IF ReservedTop(ts) THEN { <<"reserved", "top">> } ELSE {})
@@ -151,6 +151,10 @@ TextFails(e) ==
       usedN == IF ~pr.ok THEN {} ELSE IF cond THEN CondNames(pr.ast) ELSE UpdNames(pr.ast)
       usedV == IF ~pr.ok THEN {} ELSE IF cond THEN CondVals(pr.ast) ELSE UpdVals(pr.ast)
       placeholdersOK == usedN = DOMAIN e.names /\ usedV = DOMAIN e.values
+      fnAsAttr == FnNameAsAttr(ts)
+      reservedUse == ReservedUse(ts)
+      oddCase == OddCaseKeyword(ts)
+      allowedC == IF pr.ok /\ cond THEN CondOut(pr.ast, e.item, e.names, e.values) ELSE {}
   IN
   UNION { LET out == e.r[ch]
               direct == ch = "lang"
@@ -158,12 +162,12 @@ TextFails(e) ==
           IN IF out.o \in {"crash", "timeout"} \/ (out.o = "panic_syntax" /\ direct) THEN { ch \o ".NoCrash" }
              ELSE IF ~pr.ok THEN (IF e.strict /\ ~isErr THEN { ch \o ".Accepted" } ELSE {})
              ELSE IF ~placeholdersOK /\ ~direct THEN (IF e.strict /\ ~isErr THEN { ch \o ".Placeholders" } ELSE {})
-             ELSE IF FnNameAsAttr(ts) THEN {}
-             ELSE IF ReservedUse(ts) THEN (IF e.strict /\ ~isErr THEN { ch \o ".Reserved" } ELSE {})
-             ELSE IF OddCaseKeyword(ts) /\ isErr THEN {}
+             ELSE IF fnAsAttr THEN {}
+             ELSE IF reservedUse THEN (IF e.strict /\ ~isErr THEN { ch \o ".Reserved" } ELSE {})
+             ELSE IF oddCase /\ isErr THEN {}
              ELSE IF ~cond /\ pr.rep /\ isErr THEN {}     \* repeated clause keyword: rejected, or applied as if merged (D.3)
              ELSE IF cond
-             THEN LET allowed == CondOut(pr.ast, e.item, e.names, e.values) IN
+             THEN LET allowed == allowedC IN
                   (IF (out.o \in {"T", "F"} /\ out.o \in allowed) \/ (isErr /\ "E" \in allowed) THEN {} ELSE { ch \o ".Outcome" })
                   \cup (IF out.after.some /\ ~SameItem(out.after.i, e.item) THEN { ch \o ".Modified" } ELSE {})
              ELSE LET res == ApplyU(pr.ast, e.item, e.names, e.values, {"pk"})
